@@ -126,6 +126,17 @@ def obligations(cx):
         cx.ob("lemma.%s.pressure-identity" % model, [P1 > 0, P2 > 0], eq(Fp[0] / P1 + Fp[1] / P2, pf[0] + pf[1] - PP), kind='lemma',
               statement="fixed permeate pressure p: flux1/permeance1 + flux2/permeance2 = p_feed1 + p_feed2 - p")
         cx.must_fail("lemma.%s.pressure-identity" % model, [P1 > 0, P2 > 0, PP > 0], eq(Fp[0] / P1 + Fp[1] / P2, pf[0] + pf[1]))
+    # engine == CPython on the flux law with everything inlined (get_partial_pressures, activity coefficients, vapour pressures)
+    for model in ('NRTL', 'UNIQUAC'):
+        for mode in MODES:
+            Tp, pp = mode_args(mode)
+            mixd = W.mixture(src); pvd = pv_obj(src, mixd)
+            kwd = dict(first_component_permeance=W.permeance(src, P1), second_component_permeance=W.permeance(src, P2), permeate_composition=W.composition(src, Y, 'weight'),
+                       feed_composition=W.composition(src, Xf, 'weight'), feed_temperature=Tt, permeate_temperature=Tp, permeate_pressure=pp, calculation_type=model)
+            psd = cx.explore(call(src, GPF, [], kwd, self_obj=pvd), pre=BASE + [Y > 0, Y < 1, Xf > 0, Xf < 1] + W.positive('r1', 'r2', 'q1', 'q2', 'qi1', 'qi2'))
+            from .c04 import RG
+            rg = dict(RG); rg.update({'x': (0.05, 0.95), 'y': (0.05, 0.95), 'Tp': (250.0, 300.0), 'pp': (0.0, 3.0), 'P1': (1e-4, 1e-1), 'P2': (1e-5, 1e-2)})
+            differential(cx, GPF, pvd, [], kwd, psd, rg, n=6 if cx.tier == 'quick' else 60, label="%s/%s" % (model, mode))
     # self-consistency: y* = G(y_prev), |y* - y_prev| < prec, G non-expansive between them  =>  |G(y*) - y*| < prec
     ys, yp, Gs, Gp = var('ystar'), var('yprev'), var('G_ystar'), var('G_yprev')
     cx.ob("lemma.self-consistent-within-precision", [eq(ys, Gp), tabs(ys - yp) < PREC, tabs(Gs - Gp) <= tabs(ys - yp)], tabs(Gs - ys) < PREC, kind='lemma',
